@@ -6,7 +6,7 @@ from ..world import all_eq, as_int, lnot, mkstr, cplist, blist
 PROPERTY = 'C06'
 BUDGET = {'quick': {'seconds': 1200, 'xreplay_every': 50}, 'thorough': {'seconds': 6000, 'xreplay_every': 1000}}
 NONTRIVIAL = {'quick': ['qos0', 'qos1', 'qos2.stored', 'qos2.delivered', 'qos2.repeat-publish', 'pubrel.unknown', 'pubrel.repeat', 'qos3',
-                        'reconnect.persistent', 'reconnect.clean', 'multibyte-topic', 'delivered-after-reconnect']}
+                        'reconnect.persistent', 'reconnect.clean', 'multibyte-topic', 'delivered-after-reconnect', 'qos2.id-reused-after-clean']}
 
 KINDS = ('PUBLISH', 'PUBREL', 'reconnect')
 
@@ -125,9 +125,14 @@ def monitor(flow):
                 if found is None:
                     exchanges.append({'id': f['msgId'], 'cands': [f], 'may': False})
                     eng.count('qos2.stored')
+                elif found['may']:
+                    # the earlier exchange belonged to a session that has been discarded since: this PUBLISH starts a
+                    # new exchange under the same identifier, and it is this message that the PUBREL releases
+                    found['cands'] = [f]
+                    found['may'] = False
+                    eng.count('qos2.id-reused-after-clean')
                 else:
                     found['cands'].append(f)
-                    found['may'] = False
                     eng.count('qos2.repeat-publish')
             else:
                 eng.count('qos3')
@@ -211,6 +216,12 @@ def shards(tier):
                     out.append(('inbound', {'profile': profile, 'persistent': persistent, 'k': 5 if T else 3, 'first': first, 'second': second,
                                             'vary': T, 'ver': 311, 'rich': 1}))
     out.append(('inbound', {'profile': 'pubsubs', 'persistent': True, 'k': 3, 'first': 'PUBLISH', 'second': 'PUBREL', 'ver': 31}))
+    if not T:
+        # an exchange interrupted by a loss, then two more steps (e.g. the identifier reused on the next connection and released)
+        for profile in ('subscriber', 'pubsubs'):
+            for persistent in (False, True):
+                out.append(('inbound', {'profile': profile, 'persistent': persistent, 'k': 4, 'first': 'PUBLISH', 'second': 'reconnect',
+                                        'vary': False, 'ver': 311, 'rich': 0}))
     return out
 
 
@@ -218,7 +229,7 @@ META = {
     'rule': 'connected subscribing client; k free steps from {PUBLISH with symbolic QoS bits 0..3, DUP, RETAIN, identifier, topic code point(s) over the whole '
             'Unicode range, payload byte(s); PUBREL with symbolic identifier; loss + rebuilt protocol + connect(clean symbolic) + CONNACK}; a receiver model '
             'written from the statement tracks the open QoS 2 exchanges; non-trivial = counters',
-    'bounds': {'quick': 'k=3; topic 1 symbolic code point (whole Unicode range in the first PUBLISH of a history, printable ASCII later), payload 1 symbolic byte; subscriber and pubsubs; first session clean or persistent',
+    'bounds': {'quick': 'k=3 (k=4 for histories starting PUBLISH, loss + reconnect); topic 1 symbolic code point (whole Unicode range in the first PUBLISH of a history, printable ASCII later), payload 1 symbolic byte; subscriber and pubsubs; first session clean or persistent',
                'thorough': 'k=5; topic 1..2 code points, payload 0..2 bytes'},
     'stubs': ['fake transport', 'twisted task.Clock', 'jitter: fixed sequence'],
     'outside': ['histories longer than k steps', 'after a clean-session reconnect the fate of a message stored by the previous connection is left open (0 or 1 delivery)',
